@@ -19,7 +19,7 @@ MACROS = ['mpush', 'swap', 'ldm', 'clr2']
 ENUM_KEYS = ['zf', 'cf', 'nz', 'eq', 'ne', 'lo', 'hi', 'k1', 'eq.l', 'k1.w']      # a key may extend another key
 LABELS = ['start', 'loop', 'done', 'tbl', 'msg', 'lbl1', 'lbl2', 'vec', 'isr', 'amov', 'mov1', 'xa', 'hl2',
           'spx', 'r1x', 'jmp2']
-CONSTS = ['K_ONE', 'kval', 'size1', 'OFFS', 'k_two']
+CONSTS = ['K_ONE', 'kval', 'size1', 'OFFS', 'k_two', 'KVAL', 'offs']       # case twins are distinct names
 ZONES = ['ROM', 'RAM', 'ZP', 'VARS', 'hi_mem']
 DECORATORS = ['plus', 'plus_plus', 'minus', 'minus_minus', 'exclamation', 'at']
 DECO_TEXT = {'plus': '+', 'plus_plus': '++', 'minus': '-', 'minus_minus': '--', 'exclamation': '!', 'at': '@'}
